@@ -174,6 +174,10 @@ fn configure_gen(prop: &str, g: &mut Gen) {
                 let cap = g.target_pop.max(30);
                 g.many_groups_prelude(cap);
             }
+            // two labels of one vertex that print the same
+            if g.rng.chance(1, 3) {
+                g.add_colliding_labels();
+            }
         }
         "C10" => {
             g.boost_clone = 6;
